@@ -1,5 +1,5 @@
 // auto-generated: "lalrpop 0.23.1"
-// sha3: 684c1e2f67638058acfda3033704c006623a5f56fbd751c03350823819be2f5a
+// sha3: 6d84733f7b0c756cbd11e1ff3f84f97e69737cb48dce8269183685e7476286fd
 use crate::rt::*;
 #[allow(unused_extern_crates)]
 extern crate lalrpop_util as __lalrpop_util;
@@ -998,14 +998,12 @@ fn __action2<
 >(
     (_, l, _): (i64, i64, i64),
     (_, c0, _): (i64, Tok, i64),
-    (_, pL1, _): (i64, i64, i64),
     (_, c1, _): (i64, Tree, i64),
-    (_, pL2, _): (i64, i64, i64),
     (_, c2, _): (i64, Tok, i64),
     (_, r, _): (i64, i64, i64),
 ) -> Tree
 {
-    { probe("S#1", 1, 'L', pL1); probe("S#1", 2, 'L', pL2); node("S#1", l, r, vec![Tree::from(c0), Tree::from(c1), Tree::from(c2)]) }
+    node("S#1", l, r, vec![Tree::from(c0), Tree::from(c1), Tree::from(c2)])
 }
 
 #[allow(clippy::too_many_arguments, clippy::needless_lifetimes, clippy::just_underscores_and_digits, clippy::extra_unused_type_parameters)]
@@ -1027,13 +1025,11 @@ fn __action4<
     (_, l, _): (i64, i64, i64),
     (_, c0, _): (i64, Tok, i64),
     (_, c1, _): (i64, Tree, i64),
-    (_, pL2, _): (i64, i64, i64),
     (_, c2, _): (i64, Tok, i64),
-    (_, pL3, _): (i64, i64, i64),
     (_, r, _): (i64, i64, i64),
 ) -> Tree
 {
-    { probe("S#3", 2, 'L', pL2); probe("S#3", 3, 'L', pL3); node("S#3", l, r, vec![Tree::from(c0), Tree::from(c1), Tree::from(c2)]) }
+    node("S#3", l, r, vec![Tree::from(c0), Tree::from(c1), Tree::from(c2)])
 }
 
 #[allow(clippy::too_many_arguments, clippy::needless_lifetimes, clippy::just_underscores_and_digits, clippy::extra_unused_type_parameters)]
@@ -1041,39 +1037,34 @@ fn __action5<
 >(
     (_, l, _): (i64, i64, i64),
     (_, c0, _): (i64, Tok, i64),
-    (_, pR1, _): (i64, i64, i64),
     (_, c1, _): (i64, Tree, i64),
-    (_, pR2, _): (i64, i64, i64),
     (_, r, _): (i64, i64, i64),
 ) -> Tree
 {
-    { probe("X#0", 1, 'R', pR1); probe("X#0", 2, 'R', pR2); node("X#0", l, r, vec![Tree::from(c0), Tree::from(c1)]) }
+    node("X#0", l, r, vec![Tree::from(c0), Tree::from(c1)])
 }
 
 #[allow(clippy::too_many_arguments, clippy::needless_lifetimes, clippy::just_underscores_and_digits, clippy::extra_unused_type_parameters)]
 fn __action6<
 >(
     (_, l, _): (i64, i64, i64),
-    (_, pL0, _): (i64, i64, i64),
     (_, c0, _): (i64, Tok, i64),
     (_, r, _): (i64, i64, i64),
 ) -> Tree
 {
-    { probe("X#1", 0, 'L', pL0); node("X#1", l, r, vec![Tree::from(c0)]) }
+    node("X#1", l, r, vec![Tree::from(c0)])
 }
 
 #[allow(clippy::too_many_arguments, clippy::needless_lifetimes, clippy::just_underscores_and_digits, clippy::extra_unused_type_parameters)]
 fn __action7<
 >(
     (_, l, _): (i64, i64, i64),
-    (_, pL0, _): (i64, i64, i64),
     (_, c0, _): (i64, Tok, i64),
-    (_, pL1, _): (i64, i64, i64),
     (_, c1, _): (i64, Tree, i64),
     (_, r, _): (i64, i64, i64),
 ) -> Tree
 {
-    { probe("Y#0", 0, 'L', pL0); probe("Y#0", 1, 'L', pL1); node("Y#0", l, r, vec![Tree::from(c0), Tree::from(c1)]) }
+    node("Y#0", l, r, vec![Tree::from(c0), Tree::from(c1)])
 }
 
 #[allow(clippy::too_many_arguments, clippy::needless_lifetimes, clippy::just_underscores_and_digits, clippy::extra_unused_type_parameters)]
@@ -1081,11 +1072,10 @@ fn __action8<
 >(
     (_, l, _): (i64, i64, i64),
     (_, c0, _): (i64, Tok, i64),
-    (_, pR1, _): (i64, i64, i64),
     (_, r, _): (i64, i64, i64),
 ) -> Tree
 {
-    { probe("Y#1", 1, 'R', pR1); node("Y#1", l, r, vec![Tree::from(c0)]) }
+    node("Y#1", l, r, vec![Tree::from(c0)])
 }
 
 #[allow(clippy::needless_lifetimes, clippy::clone_on_copy)]
@@ -1146,31 +1136,15 @@ fn __action12<
 {
     let __start0 = __0.0.clone();
     let __end0 = __0.0.clone();
-    let __start1 = __0.2.clone();
-    let __end1 = __1.0.clone();
-    let __start2 = __1.2.clone();
-    let __end2 = __2.0.clone();
     let __temp0 = __action10(
         &__start0,
         &__end0,
     );
     let __temp0 = (__start0, __temp0, __end0);
-    let __temp1 = __action10(
-        &__start1,
-        &__end1,
-    );
-    let __temp1 = (__start1, __temp1, __end1);
-    let __temp2 = __action10(
-        &__start2,
-        &__end2,
-    );
-    let __temp2 = (__start2, __temp2, __end2);
     __action2(
         __temp0,
         __0,
-        __temp1,
         __1,
-        __temp2,
         __2,
         __3,
     )
@@ -1214,32 +1188,16 @@ fn __action14<
 {
     let __start0 = __0.0.clone();
     let __end0 = __0.0.clone();
-    let __start1 = __1.2.clone();
-    let __end1 = __2.0.clone();
-    let __start2 = __2.2.clone();
-    let __end2 = __3.0.clone();
     let __temp0 = __action10(
         &__start0,
         &__end0,
     );
     let __temp0 = (__start0, __temp0, __end0);
-    let __temp1 = __action10(
-        &__start1,
-        &__end1,
-    );
-    let __temp1 = (__start1, __temp1, __end1);
-    let __temp2 = __action10(
-        &__start2,
-        &__end2,
-    );
-    let __temp2 = (__start2, __temp2, __end2);
     __action4(
         __temp0,
         __0,
         __1,
-        __temp1,
         __2,
-        __temp2,
         __3,
     )
 }
@@ -1249,10 +1207,8 @@ fn __action14<
 fn __action15<
 >(
     __0: (i64, Tok, i64),
-    __1: (i64, i64, i64),
-    __2: (i64, Tree, i64),
-    __3: (i64, i64, i64),
-    __4: (i64, i64, i64),
+    __1: (i64, Tree, i64),
+    __2: (i64, i64, i64),
 ) -> Tree
 {
     let __start0 = __0.0.clone();
@@ -1267,8 +1223,6 @@ fn __action15<
         __0,
         __1,
         __2,
-        __3,
-        __4,
     )
 }
 
@@ -1282,21 +1236,13 @@ fn __action16<
 {
     let __start0 = __0.0.clone();
     let __end0 = __0.0.clone();
-    let __start1 = __0.0.clone();
-    let __end1 = __0.0.clone();
     let __temp0 = __action10(
         &__start0,
         &__end0,
     );
     let __temp0 = (__start0, __temp0, __end0);
-    let __temp1 = __action10(
-        &__start1,
-        &__end1,
-    );
-    let __temp1 = (__start1, __temp1, __end1);
     __action6(
         __temp0,
-        __temp1,
         __0,
         __1,
     )
@@ -1313,30 +1259,14 @@ fn __action17<
 {
     let __start0 = __0.0.clone();
     let __end0 = __0.0.clone();
-    let __start1 = __0.0.clone();
-    let __end1 = __0.0.clone();
-    let __start2 = __0.2.clone();
-    let __end2 = __1.0.clone();
     let __temp0 = __action10(
         &__start0,
         &__end0,
     );
     let __temp0 = (__start0, __temp0, __end0);
-    let __temp1 = __action10(
-        &__start1,
-        &__end1,
-    );
-    let __temp1 = (__start1, __temp1, __end1);
-    let __temp2 = __action10(
-        &__start2,
-        &__end2,
-    );
-    let __temp2 = (__start2, __temp2, __end2);
     __action7(
         __temp0,
-        __temp1,
         __0,
-        __temp2,
         __1,
         __2,
     )
@@ -1348,7 +1278,6 @@ fn __action18<
 >(
     __0: (i64, Tok, i64),
     __1: (i64, i64, i64),
-    __2: (i64, i64, i64),
 ) -> Tree
 {
     let __start0 = __0.0.clone();
@@ -1362,7 +1291,6 @@ fn __action18<
         __temp0,
         __0,
         __1,
-        __2,
     )
 }
 
@@ -1470,33 +1398,17 @@ fn __action23<
     __1: (i64, Tree, i64),
 ) -> Tree
 {
-    let __start0 = __0.2.clone();
-    let __end0 = __1.0.clone();
-    let __start1 = __1.2.clone();
-    let __end1 = __1.2.clone();
-    let __start2 = __1.2.clone();
-    let __end2 = __1.2.clone();
+    let __start0 = __1.2.clone();
+    let __end0 = __1.2.clone();
     let __temp0 = __action9(
         &__start0,
         &__end0,
     );
     let __temp0 = (__start0, __temp0, __end0);
-    let __temp1 = __action9(
-        &__start1,
-        &__end1,
-    );
-    let __temp1 = (__start1, __temp1, __end1);
-    let __temp2 = __action9(
-        &__start2,
-        &__end2,
-    );
-    let __temp2 = (__start2, __temp2, __end2);
     __action15(
         __0,
-        __temp0,
         __1,
-        __temp1,
-        __temp2,
+        __temp0,
     )
 }
 
@@ -1551,22 +1463,14 @@ fn __action26<
 {
     let __start0 = __0.2.clone();
     let __end0 = __0.2.clone();
-    let __start1 = __0.2.clone();
-    let __end1 = __0.2.clone();
     let __temp0 = __action9(
         &__start0,
         &__end0,
     );
     let __temp0 = (__start0, __temp0, __end0);
-    let __temp1 = __action9(
-        &__start1,
-        &__end1,
-    );
-    let __temp1 = (__start1, __temp1, __end1);
     __action18(
         __0,
         __temp0,
-        __temp1,
     )
 }
 
